@@ -158,6 +158,7 @@ def gen_spec(rng, idx):
     rel('n1', 'Link', 'thing', 'A' if rng.random() < 0.5 else rng.choice(hn), 'linked')
     rel('n1', 'Hub', 'link', 'Link', 'hubs')
     rel('n1', 'Hub', 'hthing', 'A' if rng.random() < 0.5 else rng.choice(hn), 'hubbed', True)
+    rel('n1', 'Owner', 'ohub', 'Hub', 'owners')                       # Owner.ohub.hthing: seed owner + lazy last hop
     spec['rels'] = rels
     return spec
 
@@ -859,19 +860,28 @@ def paths_chain(ctx, env, M, rng, quick):
                 with sess(ctx, env, M, ('chain_coll', o['cls'], an, a2, oid)):
                     src = env.E[info.root[o['cls']]][o['pk']]
                     ctx.case([env.fp, 'chain_coll', o['cls'], an, a2, rkind], nontrivial=True)
-                    for item in getattr(src, an):
-                        tid = M.by_pk(info, info.root[tcls], item._pkval_)
-                        if tid is None: continue
-                        want = M.objs[tid]['refs'].get(a2)
-                        seed = is_seed(item)
-                        got = getattr(item, a2)
-                        ctx.count('chain.coll_item_reads')
-                        if seed: ctx.count('chain.coll_item_seed_at_read')
-                        if want is None:
-                            if got is not None: ctx.violation(witness(env, M, path='chain_coll', oid=oid, attr=an, a2=a2, got=repr(got)), mechanism='reference-value')
-                        elif got is None or got._pkval_ != M.objs[want]['pk']:
-                            ctx.violation(witness(env, M, path='chain_coll', oid=oid, attr=an, a2=a2, got=repr(got)), mechanism='reference-value')
-                        else: observe(ctx, env, M, got, want, 'chain_coll')
+                    try: chain_coll_items(ctx, env, M, src, oid, an, a2, tcls)
+                    except NotImplementedError:
+                        # loud and accepted: a seed of the declared class whose reference value was already known through the
+                        # reverse side got read bits from that read; a later (batch) load that has to refine its class refuses
+                        ctx.count('outcome.pony_raised.refine_seed_with_read_bits_NotImplementedError')
+
+
+def chain_coll_items(ctx, env, M, src, oid, an, a2, tcls):
+    info = env.info
+    for item in getattr(src, an):
+        tid = M.by_pk(info, info.root[tcls], item._pkval_)
+        if tid is None: continue
+        want = M.objs[tid]['refs'].get(a2)
+        seed = is_seed(item)
+        got = getattr(item, a2)
+        ctx.count('chain.coll_item_reads')
+        if seed: ctx.count('chain.coll_item_seed_at_read')
+        if want is None:
+            if got is not None: ctx.violation(witness(env, M, path='chain_coll', oid=oid, attr=an, a2=a2, got=repr(got)), mechanism='reference-value')
+        elif got is None or got._pkval_ != M.objs[want]['pk']:
+            ctx.violation(witness(env, M, path='chain_coll', oid=oid, attr=an, a2=a2, got=repr(got)), mechanism='reference-value')
+        else: observe(ctx, env, M, got, want, 'chain_coll')
 
 
 def paths_prefetch(ctx, env, M):
@@ -1378,6 +1388,11 @@ def run(ctx):
     ctx.floor('path.unpickle', int(60 * k))
     ctx.floor('path.proxy', int(80 * k))
     ctx.floor('path.fk_nav', int(60 * k))
+    ctx.floor('chain.cases', int(250 * k))
+    ctx.floor('chain.owner_seed_at_read.target_is_subclass', int(25 * k))
+    ctx.floor('chain.lazy_last.target_is_subclass', int(5 * k))
+    ctx.floor('fk_nav.lazy_attr', int(10 * k))
+    ctx.floor('chain.coll_item_seed_at_read', int(40 * k))
     ctx.floor('lookup.mixed.getitem', int(300 * k))
     ctx.floor('outcome.agree', int(12000 * k))
 
